@@ -15,6 +15,7 @@ import (
 // updates must be independent of one another, and each bound must be fed by its own axis.
 
 var cmpRe = regexp.MustCompile(`^\((.+) ([<>]) (.+)\)$`)
+var minmaxRe = regexp.MustCompile(`^builtin\.(min|max)\(([^,]+),([^,]+)\)$`)
 
 func ruleBounds(rule string, fns []string) func(*Ctx) {
 	return func(c *Ctx) {
@@ -72,6 +73,7 @@ func ruleBounds(rule string, fns []string) func(*Ctx) {
 			type upd struct{ op, coord string }
 			seenCombos := map[string]bool{}
 			fieldOK := map[string]string{}
+			builtinForm := map[string]bool{}
 			for _, p := range body {
 				var taken []string
 				conds := map[string]upd{}
@@ -101,6 +103,24 @@ func ruleBounds(rule string, fns []string) func(*Ctx) {
 				}
 				for _, fld := range []string{"left", "top", "right", "bottom"} {
 					w := want[fld]
+					// acc = min(acc, coord) / max(acc, coord): the comparison and the update in one builtin
+					if m := minmaxRe.FindStringSubmatch(stored[fld]); m != nil {
+						a, b := strings.TrimSpace(m[2]), strings.TrimSpace(m[3])
+						if strings.HasSuffix(b, "."+fld) {
+							a, b = b, a
+						}
+						wantFn := map[string]string{"<": "min", ">": "max"}[w.op]
+						switch {
+						case !strings.HasSuffix(a, "."+fld):
+							fieldOK[fld] = fmt.Sprintf("%s = %s does not accumulate over %s itself", fld, stored[fld], fld)
+						case m[1] != wantFn:
+							fieldOK[fld] = fmt.Sprintf("%s is updated with %s, a %s bound needs %s", fld, m[1], fld, wantFn)
+						case !strings.HasSuffix(b, "."+w.axis):
+							fieldOK[fld] = fmt.Sprintf("%s accumulates %s, it must use the %s coordinate", fld, b, w.axis)
+						}
+						builtinForm[fld] = true
+						continue
+					}
 					u, has := conds[fld]
 					isTaken := false
 					for _, t := range taken {
@@ -128,7 +148,9 @@ func ruleBounds(rule string, fns []string) func(*Ctx) {
 				if len(body) == 0 {
 					bad = "no loop body path found"
 				}
-				if bad == "" && len(seenCombos) != 16 {
+				if bad == "" && len(builtinForm) == 4 {
+					// four unconditional min/max updates are independent by construction
+				} else if bad == "" && len(seenCombos) != 16 {
 					bad = fmt.Sprintf("only %d of the 16 combinations of the four comparisons are possible: the updates are not independent", len(seenCombos))
 				}
 				c.check(bad == "", rule, fmt.Sprintf("%s:%s:%s", rule, name, fld), f.Pos(), name,
